@@ -65,6 +65,15 @@ def main(tier_: str) -> int:
             for q in ('', 'timeline=1'):
                 vecs.append(('vtt', tmpl, 'vod', q))
         vecs.append(('vtt', 'hand_made.mpd', 'odvod', ''))
+        # a stream whose timing reference (its audio file, 39.98 s) is not a whole number of seconds
+        for q in ('', 'timeline=1'):
+            vecs.append(('aref', 'hand_made.mpd', 'vod', q))
+        vecs.append(('aref', 'hand_made.mpd', 'odvod', ''))
+        # a video track (the timing reference) with a short last fragment: 10 x 4 s + 0.5 s = 40.5 s
+        for q in ('', 'timeline=1'):
+            vecs.append(('tail', 'hand_made.mpd', 'vod', q))
+        vecs.append(('tail', 'manifest_n.mpd', 'vod', 'timeline=1'))
+        vecs.append(('tail', 'hand_made.mpd', 'odvod', ''))
         # media stored with top-level `free` padding after moov, between fragments and at the end of the file
         for tmpl in OD_TEMPLATES:
             vecs.append(('pad', tmpl, 'odvod', ''))
@@ -74,6 +83,11 @@ def main(tier_: str) -> int:
             from harness.core import REPO
             da.add_fixture('bbb', directory='vtt', title='stored without tfdt', only={'bbb_v7', 'bbb_a1'},
                            extra=[(REPO / 'tests' / 'fixtures' / 'webvtt.mp4', 'vtt_t2')])
+            da.add_fixture('bbb', directory='aref', title='audio is the timing reference', only={'bbb_v7', 'bbb_a1'}, ref_stem='bbb_a1')
+            from harness.synth import append_short_fragment
+            tailf = d / 'tail_v7.mp4'
+            tailf.write_bytes(append_short_fragment((REPO / 'tests' / 'fixtures' / 'bbb' / 'bbb_v7.mp4').read_bytes(), 12))
+            da.add_fixture('bbb', directory='tail', title='short last fragment', only={'bbb_a1'}, extra=[(tailf, 'tail_v7')])
             from harness.synth import pad_with_free
             padded = []
             for stem in ('bbb_v6', 'bbb_t1'):
@@ -95,7 +109,9 @@ def main(tier_: str) -> int:
             case = {'url': lo.get('url'), 'rep': lo.get('rep'), 'by': lo.get('by'), 'mode': lo.get('mode'),
                     'detail': v['detail'], 'nsegs': len(lo.get('durs', [])), 'sample_url': lo.get('sample_url'),
                     'past_url': lo.get('past_url'),
-                    'shorter_than_ref_by': (lo['R'] - sum(lo['durs'])) if 'R' in lo and 'durs' in lo else None}
+                    'shorter_than_ref_by': (lo['R'] - sum(lo['durs'])) if 'R' in lo and 'durs' in lo else None,
+                    # the last stored fragment is shorter than three quarters of the first one
+                    'last_fragment_short': 1 if lo.get('durs') and 4 * lo['durs'][-1] < 3 * lo['durs'][0] else 0}
             out.add(Violation('C06', v['clause'], case))
         n200 = sum(1 for x in walks for s in x.get('serve', []) if s['status'] == 200) + \
             sum(1 for x in walks for s in x.get('fetched', []) if s['status'] == 206)
